@@ -773,3 +773,6 @@ def run(ck: Check) -> None:
         samples.append({"t2_case": {k: v for k, v in lex_metas[20].items()}, "lexer_observed": box["lex"][20]})
     cov["samples"] = samples
     lexstage.lex_stage(ck, "C09_lex.v", 1, 8, "C09")    # text level: the tokenizer (tools/lexstage.py)
+    # the LR driver on the validated tables: no IndexError/KeyError, linear fuel bound (tools/lrstage.py)
+    import lrstage
+    lrstage.lr_stage(ck, "C09_lr.v", lrstage.QUICK_C09, lrstage.THOROUGH_C09, "lr")
